@@ -401,7 +401,7 @@ func (x *pmExec) exec(cs Case) {
 	}
 	ans := atomic.LoadInt64(&x.answered) - ans0
 	x.s.Stat("bytes_answered_c", ans)
-	checkAlloc(x.s, "c", a, sent, ans, wit)
+	checkAlloc(x.s, "c", a, nmsg+1, sent, ans, wit)
 	x.s.Case("c/"+cs.Kind, len(cs.Msgs) > 0 || cs.HS != nil, cs)
 }
 
